@@ -216,13 +216,17 @@ def run_engine_check(ctx, profile, n_quick, n_thorough, extra_header="", monitor
             rejected.append((c, r, why))
 
     # 1. a monitor is false on what the implementation did: concrete violation, smallest case first
+    #    (one violation per distinct smallest case; it lists every monitor that is false on it)
+    reported = {}
     for m, lst in sorted(mon_bad.items()):
         lst.sort(key=lambda x: _size(x[0]))
-        c, r = lst[0]
-        acc, _, why = classify(c, r, mons)
-        ctx.violation(_replay_obj(ctx, c, "monitor-false", "monitor %s is false on the trace of the real engine (%d failing traces); "
-                                  "automaton: %s" % (m, len(lst), why), r, mons,
-                                  dict(failing_monitor=m, failing_cases=[x[0]["id"] for x in lst[:30]])))
+        reported.setdefault(lst[0][0]["id"], (lst[0], []))[1].append((m, len(lst)))
+    for cid, ((c, r), ms) in sorted(reported.items()):
+        acc, bad, why = classify(c, r, mons)
+        ctx.violation(_replay_obj(ctx, c, "monitor-false", "monitor(s) %s false on the trace of the real engine (%s failing traces); "
+                                  "automaton: %s" % (bad, ", ".join("%s: %d" % x for x in ms), why), r, mons,
+                                  dict(failing_monitor=bad[0], failing_monitors=bad,
+                                       failing_cases=[x[0]["id"] for x in mon_bad[ms[0][0]][:30]])))
 
     # 2. Hang: Wait did not return
     hang_mon_bad = []
